@@ -8,7 +8,8 @@ import cfcommon as cf
 class C04(core.Prop):
     pid = 'C04'
     lean_modules = ['TddaVerif.Props.C04']
-    theorems = []
+    theorems = ['TddaVerif.Props.C04.' + t for t in ['checkPatterns_sound', 'checkPatterns_complete', 'lineOKb_iff',
+        'check_pass_iff', 'identical_passes', 'different_length_fails', 'unexcused_difference_fails', 'sorted_eq_iff_perm']]
     quick_n = 600
     thorough_n = 30000
     rule = ('cases: reference text of 0..6 lines from a pool (digits, versions, dates, blanks, unicode, leading/'
